@@ -323,3 +323,72 @@ def compile_traced(arg: dict) -> dict:
 
 def compile_project_many(args: list[dict]) -> list[dict]:
     return [compile_project(a) for a in args]
+# ----------------------------------------------------------------------------------------------------------------------
+# position-mark listing (property C18): the visitor editors use to find the text span of every Position<...> literal
+# ----------------------------------------------------------------------------------------------------------------------
+def pos_mark_listing(arg: dict) -> dict:
+    """arg: {"text"} -> {"marks": [[line, col, end_line, end_col, name, x_offset, y_offset, x_relative, y_relative]]}
+    The listing API: PositionMarkVisitor().visit(ExplorerScriptReader(text).read())"""
+    from explorerscript.explorerscript_reader import ExplorerScriptReader
+    from explorerscript.ssb_converting.compiler.compiler_visitor.position_mark_visitor import PositionMarkVisitor
+    try:
+        tree = ExplorerScriptReader(arg["text"]).read()
+    except BaseException as e:  # noqa
+        r = _exc(e)
+        r["stage"] = "parse"
+        return r
+    try:
+        marks = PositionMarkVisitor().visit(tree)
+    except BaseException as e:  # noqa
+        r = _exc(e)
+        r["stage"] = "listing"
+        return r
+    return {"marks": [[m.line_number, m.column_number, m.end_line_number, m.end_column_number, m.name,
+                       m.x_offset, m.y_offset, m.x_relative, m.y_relative] for m in marks]}
+
+
+def listing_many(args: list[dict]) -> list[dict]:
+    return [pos_mark_listing(a) for a in args]
+
+
+def listing_and_compile(arg: dict) -> dict:
+    return {"listing": pos_mark_listing(arg), "compiled": compile_text(arg)}
+
+
+def listing_and_compile_many(args: list[dict]) -> list[dict]:
+    return [listing_and_compile(a) for a in args]
+
+
+def print_mark(arg: list) -> str:
+    """str(SsbOpParamPositionMarker(name, x_offset, y_offset, x_relative, y_relative))"""
+    from explorerscript.ssb_converting.ssb_data_types import SsbOpParamPositionMarker
+    return str(SsbOpParamPositionMarker(*arg))
+
+
+def splice_span(text: str, start: Any, end: Any, new: str) -> Any:
+    """what an editor does with one listing entry: the text from (line, col) `start` up to and including the character at
+    `end` is replaced by `new`; lines are separated by '\\n', columns count code points.  None: span not inside the text."""
+    lines = text.split("\n")
+    (l1, c1), (l2, c2) = start, end
+    if not (0 <= l1 < len(lines) and 0 <= l2 < len(lines) and 0 <= c1 < len(lines[l1]) and 0 <= c2 < len(lines[l2])):
+        return None
+    if (l1, c1) > (l2, c2):
+        return None
+    head = "\n".join(lines[:l1] + [lines[l1][:c1]])
+    tail = "\n".join([lines[l2][c2 + 1:]] + lines[l2 + 1:])
+    return head + new + tail
+
+
+def splice_and_compile(arg: dict) -> dict:
+    """arg: {"text", "edits": [{"start", "end", "mark": [name, xo, yo, xr, yr]}]} -> for each edit the printed mark, the
+    spliced text and its compilation"""
+    out = []
+    for e in arg["edits"]:
+        new = print_mark(e["mark"])
+        t2 = splice_span(arg["text"], e["start"], e["end"], new)
+        out.append({"printed": new, "text": t2, "compiled": compile_text({"text": t2}) if t2 is not None else None})
+    return {"edits": out}
+
+
+def splice_and_compile_many(args: list[dict]) -> list[dict]:
+    return [splice_and_compile(a) for a in args]
